@@ -7,6 +7,7 @@ import (
 	"strings"
 
 	"github.com/emitter-io/emitter/verif/core"
+	"github.com/emitter-io/emitter/verif/drivers/adapters"
 	"github.com/emitter-io/emitter/verif/drivers/authz"
 	"github.com/emitter-io/emitter/verif/drivers/ban"
 	vcrdt "github.com/emitter-io/emitter/verif/drivers/crdt"
@@ -14,6 +15,7 @@ import (
 	"github.com/emitter-io/emitter/verif/drivers/mqttc"
 	"github.com/emitter-io/emitter/verif/drivers/session"
 	"github.com/emitter-io/emitter/verif/drivers/trie"
+	"github.com/emitter-io/emitter/verif/drivers/wq"
 )
 
 var checks = map[string]func(*core.Ctx){
@@ -24,10 +26,12 @@ var checks = map[string]func(*core.Ctx){
 	"C06": history.Run,
 	"C07": session.RunC07,
 	"C08": session.RunC08,
+	"C10": wq.RunC10,
 	"C11": authz.RunC11,
 	"C12": authz.RunC12,
 	"C14": ban.Run,
 	"C16": mqttc.Run,
+	"C17": adapters.Run,
 	"C18": session.RunC18,
 }
 
